@@ -56,7 +56,7 @@ func (c *childTB) Failed() bool              { return false }
 func c16Prop(nlines, nelems int) func(t *rapid.T) {
 	return func(t *rapid.T) {
 		for i := 0; i < nlines; i++ {
-			t.Logf("captured output line %d", i)
+			t.Logf("captured output line %d %s", i, os.Getenv("C16_LOGTAG"))
 		}
 		if nelems >= 0 {
 			rapid.SliceOfN(rapid.Uint64(), nelems, nelems).Draw(t, "w")
@@ -160,6 +160,13 @@ func c16Scenarios(cfg runCfg) []Scenario {
 				X: map[string]string{"explicit": []string{"missing", "stale-in-dir", "stale-elsewhere", "missing-in-dir"}[i%4]}})
 		}
 	}
+	// the failing run finds a usable fail file (of an earlier run, with other captured output) and reproduces from it
+	for i := 0; i < cfg.n(8, 6); i++ {
+		if cfg.mine(i) {
+			out = append(out, Scenario{Family: "crash", Seed: mix(cfg.seed, 16, 56, uint64(i)), N: []int{1, 3, 40}[i%3], K: []int{0, 1, 10, 100}[(i/3)%4], S: names[i%len(names)],
+				X: map[string]string{"existing": []string{"glob", "flag"}[i%2]}})
+		}
+	}
 	// faults: a system call of the save fails (disk full, permissions, rename across devices ...), and the process is
 	// then killed at every later call of the error path
 	for i := 0; i < cfg.n(16, 6); i++ {
@@ -250,6 +257,15 @@ func (sc Scenario) c16Env() []string {
 	if ex := sc.X["explicit"]; ex != "" {
 		env = append(env, "C16_FAILFILE="+c16ExplicitPath(sc))
 	}
+	if sc.X["existing"] == "flag" {
+		env = append(env, "C16_FAILFILE="+c16ExistingPath(sc))
+	}
+	if sc.X["existing"] != "" {
+		env = append(env, "C16_LOGTAG=second run")
+	}
+	if lt := sc.X["logtag"]; lt != "" {
+		env = append(env, "C16_LOGTAG="+lt)
+	}
 	return append(env, "C16_NAME="+sc.S, fmt.Sprintf("C16_LINES=%d", sc.N), fmt.Sprintf("C16_ELEMS=%d", sc.K), fmt.Sprintf("C16_SEED=%d", sc.Seed%100000+1), "GOMAXPROCS=1", "GOGC=off")
 }
 
@@ -301,6 +317,10 @@ func c16Run(t *testing.T, sc Scenario, res *Result) {
 
 	if sc.X["explicit"] != "" {
 		c16Explicit(sc, res, base)
+		return
+	}
+	if sc.X["existing"] != "" {
+		c16Existing(sc, res, base)
 		return
 	}
 	// step 1: uninterrupted reference run, traced
@@ -810,6 +830,117 @@ func c16Explicit(sc Scenario, res *Result, base string) {
 			}
 		}
 		os.Chdir(wd)
+		os.RemoveAll(dir)
+	}
+}
+
+func c16ExistingPath(sc Scenario) string {
+	san := sanitize(sc.S)
+	return filepath.Join("testdata", "rapid", san, san+"-20200101000000-1.fail")
+}
+
+// c16Existing: the failing run starts with a complete, usable fail file of an earlier run in place (found by the glob
+// or named with -rapid.failfile) whose recorded output differs from what the test logs now; the failure is reproduced
+// from it.  Whatever the library does then (the unchanged tree: nothing), that file is a picked-up name: never opened
+// for writing, and at every crash point it holds what it held before or a complete file with the same test case.
+func c16Existing(sc Scenario, res *Result, base string) {
+	name := sc.S
+	wd, _ := os.Getwd()
+	expl := c16ExistingPath(sc)
+	// run 1 (an earlier run of the test, logging other text) leaves the fail file that run 2 starts with
+	sc1 := sc
+	sc1.X = map[string]string{"logtag": "first run"}
+	firstDir := filepath.Join(base, "first")
+	if _, _, err := runChild(sc1, firstDir, ""); err != nil {
+		res.inconclusive("first run failed: " + err.Error())
+		return
+	}
+	os.Chdir(firstDir)
+	f1, _, _ := listFailDir(name)
+	os.Chdir(wd)
+	if len(f1) != 1 {
+		res.inconclusive(fmt.Sprintf("first run left %d fail files", len(f1)))
+		return
+	}
+	old, _ := os.ReadFile(filepath.Join(firstDir, f1[0]))
+	_, _, oldWords, _, perr := readFailFile(filepath.Join(firstDir, f1[0]))
+	if perr != nil {
+		res.inconclusive("first run's fail file does not parse: " + perr.Error())
+		return
+	}
+	plant := func(dir string) {
+		os.MkdirAll(filepath.Join(dir, filepath.Dir(expl)), 0o775)
+		if err := os.WriteFile(filepath.Join(dir, expl), old, 0o664); err != nil {
+			panic(err)
+		}
+	}
+	refDir := filepath.Join(base, "ref")
+	plant(refDir)
+	trace, _, err := runChild(sc, refDir, "")
+	if err != nil || len(trace) == 0 {
+		res.inconclusive(fmt.Sprintf("reference run failed: %v", err))
+		return
+	}
+	_, saveTrace, points, sawEnd := c16SaveTrace(trace)
+	if !sawEnd {
+		res.inconclusive("markers not found in the reference trace")
+		return
+	}
+	res.inc("scenarios_traced")
+	res.inc("existing_scenarios:" + sc.X["existing"])
+	res.nontrivial(fmt.Sprintf("existing/%x/%s", sc.Seed, sc.X["existing"]))
+	// the run must have reproduced from the file (else it saved a second one, and the scenario says nothing)
+	os.Chdir(refDir)
+	fref, _, _ := listFailDir(name)
+	os.Chdir(wd)
+	if len(fref) != 1 {
+		res.inconclusive(fmt.Sprintf("the failure was not reproduced from the existing fail file (%d fail files after the run)", len(fref)))
+		return
+	}
+	san := sanitize(name)
+	c16TraceOracle(sc, res, saveTrace, san, "/existing")
+	judge := func(dir, what string, detail map[string]any) {
+		os.Chdir(dir)
+		defer os.Chdir(wd)
+		final, temps, _ := listFailDir(name)
+		detail["final_files"], detail["temp_files"] = final, temps
+		seen := false
+		for _, f := range final {
+			b, _ := os.ReadFile(f)
+			if filepath.Clean(f) == filepath.Clean(expl) {
+				seen = true
+				if bytes.Equal(b, old) {
+					res.inc("existing_file_untouched")
+					continue
+				}
+			}
+			if _, _, w, _, err := readFailFile(f); err != nil {
+				res.violate(sc, "c16/existing-partial-visible", fmt.Sprintf("%s: the picked-up file %s does not parse: %v (%d bytes)", what, f, err, len(b)), detail)
+			} else if !wordsEqual(w, oldWords) && len(w) != len(oldWords) {
+				res.violate(sc, "c16/existing-incomplete-visible", fmt.Sprintf("%s: the picked-up file %s holds %d words, the test case has %d", what, f, len(w), len(oldWords)), detail)
+			} else if n := strings.Count(string(b), "\n# ") + 1; sc.N > 0 && n < sc.N && !bytes.Equal(b, old) {
+				res.violate(sc, "c16/existing-incomplete-visible", fmt.Sprintf("%s: the picked-up file %s was rewritten with %d of %d output lines", what, f, n, sc.N), detail)
+			}
+		}
+		if !seen {
+			res.violate(sc, "c16/existing-lost", what+": the fail file the run reproduced from is gone", detail)
+		}
+	}
+	judge(refDir, "uninterrupted run", map[string]any{"trace": traceStr(saveTrace, 40)})
+	res.count("save_syscalls", int64(len(points)))
+	for pi, p := range points {
+		dir := filepath.Join(base, fmt.Sprintf("e%03d", pi))
+		plant(dir)
+		_, killed, err := runChild(sc, dir, fmt.Sprintf("%s:signal=KILL:when=%d", p.name, p.j))
+		res.inc("crash_runs")
+		res.inc("existing_crash_runs")
+		if err != nil || !killed {
+			res.inc("crash_point_not_reached")
+			os.RemoveAll(dir)
+			continue
+		}
+		res.inc("killed_at:" + p.name)
+		judge(dir, fmt.Sprintf("after a kill at %s#%d", p.name, p.j), map[string]any{"crash_point": fmt.Sprintf("%s #%d %s", p.name, p.j, p.args), "save_trace": traceStr(saveTrace, 60)})
 		os.RemoveAll(dir)
 	}
 }
